@@ -620,9 +620,48 @@ func runReplayChild(t *testing.T) (completed, crashed bool, out string) {
 
 // ------------------------------------------------------------------ driver
 
+// TestDriverPubsub re-executes itself as a child process: a goroutine panic inside the components under test
+// (send on / close of a closed channel) kills the process that runs the histories, and that must be an
+// observation with a signature, not the end of the driver.
 func TestDriverPubsub(t *testing.T) {
 	dir := OutDir(t)
 	seed := EnvSeed()
+	if os.Getenv("VERIF_PUBSUB_CHILD") == "" {
+		exe, err := os.Executable()
+		require.NoError(t, err)
+		cmd := exec.Command(exe, "-test.run", "^TestDriverPubsub$", "-test.count", "1", "-test.timeout", "3000s")
+		cmd.Env = append(os.Environ(), "VERIF_PUBSUB_CHILD=histories")
+		var buf bytes.Buffer
+		cmd.Stdout, cmd.Stderr = &buf, &buf
+		runErr := cmd.Run()
+		if runErr == nil {
+			return // the child wrote cases_*.v and driver.json
+		}
+		out := buf.String()
+		side := NewSidecar("pubsub", seed, "the process running the histories crashed")
+		sig := "C20/pubsub/histories/crash"
+		switch {
+		case strings.Contains(out, "send on closed channel"):
+			sig = "C20/pubsub/histories/send-on-closed-channel"
+		case strings.Contains(out, "close of closed channel"):
+			sig = "C20/pubsub/histories/close-of-closed-channel"
+		case strings.Contains(out, "all goroutines are asleep") || strings.Contains(out, "test timed out"):
+			sig = "C20/pubsub/histories/deadlock"
+		case strings.Contains(out, "Unlock of unlocked"):
+			sig = "C20/pubsub/histories/unlock-of-unlocked-mutex"
+		}
+		i := strings.Index(out, "panic:")
+		if i < 0 {
+			i = 0
+		}
+		excerpt := out[i:]
+		if len(excerpt) > 2500 {
+			excerpt = excerpt[:2500]
+		}
+		side.Hit(sig, "the process driving sequential histories on the event bus / filter system died", map[string]interface{}{"output": excerpt})
+		side.Write(t, dir) // no cases file: nothing was observed to the end
+		return
+	}
 	n := EnvInt("VERIF_N", 120)
 	rng := NewRng(seed)
 	side := NewSidecar("pubsub", seed,
@@ -630,7 +669,7 @@ func TestDriverPubsub(t *testing.T) {
 			"(AddTopic/RemoveTopic/Subscribe/unsubscribe/send on source/close source/readers on and off/Topics) or on the real EventSystem "+
 			"(SubscribeNewHeads/Logs/PendingTxs, Subscription.Unsubscribe, bus unsubscribe, events through a real WSClient, readers) "+
 			"with the per-op snapshots; plus one replay case; non-trivial = a message was delivered or a channel was closed in the history")
-	cases := NewCases(dir, "From Evm Require Import Conc PubSub FilterSys CorrPubSub.", "ps_mismatches")
+	cases := NewCases(dir, "From Evm Require Import Conc PubSub FilterSys Total CorrPubSub.", "ps_mismatches")
 
 	idx := 0
 	for i := 0; i < n; i++ {
@@ -673,6 +712,38 @@ func TestDriverPubsub(t *testing.T) {
 		side.Hit(sig, "uninstall issued while consumeEvents was between topic-channel lookup and send crashed the process", rc)
 	} else if completed {
 		side.Hit("C20/pubsub/filtersys/uninstall-not-excluded", "eventLoop closed the topic channel while consumeEvents was between lookup and send", rc)
+	}
+
+	// Tx events of committed-but-invalid transactions delivered to an installed pending-transaction filter
+	for _, k := range []struct {
+		name            string
+		hasMsgs, validB bool
+	}{{"garbage-eth-payload", true, false}, {"no-messages", false, false}} {
+		exe, err := os.Executable()
+		require.NoError(t, err)
+		cmd := exec.Command(exe, "-test.run", "^TestChildPending$", "-test.count", "1", "-test.timeout", "120s")
+		cmd.Env = append(os.Environ(), "VERIF_PUBSUB_CHILD=pending:"+k.name)
+		var buf bytes.Buffer
+		cmd.Stdout, cmd.Stderr = &buf, &buf
+		runErr := cmd.Run()
+		out := buf.String()
+		survived := runErr == nil && strings.Contains(out, "PENDING survived")
+		pc := map[string]interface{}{"input": k.name, "survived": survived}
+		if !survived {
+			i := strings.Index(out, "panic:")
+			if i < 0 {
+				i = 0
+			}
+			pc["output"] = tail(out[i:], 1500)
+			if len(out[i:]) > 1500 {
+				pc["output"] = out[i : i+1500]
+			}
+			side.Hit("C20/pubsub/pending-tx/"+k.name, "a Tx event of a committed transaction crashed the pending-transaction filter goroutine (whole process)", pc)
+		}
+		side.Count(fmt.Sprintf("pending:%s:survived=%v", k.name, survived))
+		cases.Add(fmt.Sprintf("(PPending %s %s %s)", CqBool(k.hasMsgs), CqBool(k.validB), CqBool(survived)))
+		side.Case(idx, "pending:"+k.name, true, pc)
+		idx++
 	}
 
 	if os.Getenv("VERIF_TIER") == "thorough" {
